@@ -428,8 +428,7 @@ func use(fm *Frame, spec string, r diag.Ranger) (*Ns, error) {
 	}
 
 	// Handle imports of pre-defined modules like `builtin` and `str`.
-	verifTrace(fm.Evaler, fm, "modules.read")
-	if ns, ok := fm.Evaler.modules[spec]; ok {
+	if ns, ok := fm.Evaler.getModule(fm, spec); ok {
 		return ns, nil
 	}
 	if code, ok := fm.Evaler.BundledModules[spec]; ok {
@@ -453,10 +452,8 @@ func use(fm *Frame, spec string, r diag.Ranger) (*Ns, error) {
 	return nil, NoSuchModule{spec}
 }
 
-// TODO: Make access to fm.Evaler.modules concurrency-safe.
 func useFromFile(fm *Frame, spec, path string, r diag.Ranger) (*Ns, error) {
-	verifTrace(fm.Evaler, fm, "modules.read")
-	if ns, ok := fm.Evaler.modules[path]; ok {
+	if ns, ok := fm.Evaler.getModule(fm, path); ok {
 		return ns, nil
 	}
 	_, err := os.Stat(path + ".so")
@@ -486,8 +483,7 @@ func useFromFile(fm *Frame, spec, path string, r diag.Ranger) (*Ns, error) {
 		t := reflect.TypeOf(sym).Elem()
 		return nil, PluginLoadError{spec, fmt.Errorf("Ns symbol has wrong type %s", t)}
 	}
-	verifTrace(fm.Evaler, fm, "modules.write")
-	fm.Evaler.modules[path] = *ns
+	fm.Evaler.setModule(fm, path, *ns)
 	return *ns, nil
 }
 
@@ -502,7 +498,6 @@ func readFileUTF8(fname string) (string, error) {
 	return string(bytes), nil
 }
 
-// TODO: Make access to fm.Evaler.modules concurrency-safe.
 func evalModule(fm *Frame, key string, src parse.Source, r diag.Ranger) (*Ns, error) {
 	ns, exec, err := fm.PrepareEval(src, r, new(Ns))
 	if err != nil {
@@ -510,15 +505,13 @@ func evalModule(fm *Frame, key string, src parse.Source, r diag.Ranger) (*Ns, er
 	}
 	// Installs the namespace before executing. This prevent circular use'es
 	// from resulting in an infinite recursion.
-	verifTrace(fm.Evaler, fm, "modules.write")
-	fm.Evaler.modules[key] = ns
+	fm.Evaler.setModule(fm, key, ns)
 	verifTrace(fm.Evaler, fm, "module.exec-begin")
 	err = exec()
 	verifTrace(fm.Evaler, fm, "module.exec-end")
 	if err != nil {
 		// Unload the namespace.
-		verifTrace(fm.Evaler, fm, "modules.write")
-		delete(fm.Evaler.modules, key)
+		fm.Evaler.setModule(fm, key, nil)
 		return nil, err
 	}
 	return ns, nil
